@@ -65,6 +65,32 @@ def mutated(spec, op, warm):
         return 'EXC', type(e).__name__
 
 
+def in_reaction(spec, partner):
+    """the molecule's own values after it served as a member of a reaction whose string / hash / CGR were computed first"""
+    from vf import molgen
+    from chython import ReactionContainer
+    a, b = molgen.build(spec), molgen.build(partner)
+    try:
+        r = ReactionContainer([a], [b], [a.copy()])
+        str(r), hash(r), format(r, 'm')
+        try:
+            str(~r)
+        except Exception:
+            pass
+        return str(a), format(a, 'm'), sorted(a.atoms_order.items()), a == a.copy(), str(b)
+    except Exception as e:
+        return 'EXC', type(e).__name__
+
+
+def alone(spec, partner):
+    from vf import molgen
+    a, b = molgen.build(spec), molgen.build(partner)
+    try:
+        return str(a), format(a, 'm'), sorted(a.atoms_order.items()), a == a.copy(), str(b)
+    except Exception as e:
+        return 'EXC', type(e).__name__
+
+
 KEYS = ['str', 'atoms_order', 'smiles_atoms_order', 'sssr', 'linear', 'morgan', 'linear_bits', 'matches', 'canonicalize', 'pack',
         'components', 'format_m']
 
@@ -92,6 +118,16 @@ def main():
             first_keys = ['atoms_order', 'sssr', 'components', 'linear', 'morgan']
             other = values(b, queries, first_keys + [k for k in KEYS[::-1] if k not in first_keys])
             bad = sorted({k for k in KEYS if not (first[k] == cached[k] == copied[k] == other[k])})
+            partner = specs[i - 1] if i else specs[-1]
+            try:
+                molgen.build(partner)
+                solo, member = alone(spec, partner), in_reaction(spec, partner)
+                first['rxn:member'] = solo
+                if solo != member:
+                    bad.append('rxn:member')
+                    cached['rxn:member'] = copied['rxn:member'] = other['rxn:member'] = member
+            except molgen.Reject:
+                first['rxn:member'] = None
             for op in MUTATORS:
                 cold, warm = mutated(spec, op, False), mutated(spec, op, True)
                 first['op:' + op] = cold
@@ -99,7 +135,7 @@ def main():
                     bad.append('op:' + op)
                     cached['op:' + op] = copied['op:' + op] = other['op:' + op] = warm
             out.write(json.dumps({'i': i, 's': first['str'] if isinstance(first['str'], str) else None,
-                                  'digest': {k: dg(first[k]) for k in KEYS + ['op:' + o for o in MUTATORS]}, 'inconsistent': bad,
+                                  'digest': {k: dg(first[k]) for k in KEYS + ['op:' + o for o in MUTATORS] + ['rxn:member']}, 'inconsistent': bad,
                                   'detail': {k: [dg(first[k]), dg(cached[k]), dg(copied[k]), dg(other[k])] for k in bad},
                                   'ties': len(set(a.atoms_order.values())) < len(a), 'rings': a.rings_count}) + '\n')
 
